@@ -396,10 +396,19 @@ func runC03(c *Ctx) {
 		})
 		nspawn := 0
 		okOnce := true
-		for _, l := range g.Lits {
-			if isGo := l.IsSpawned(); !isGo {
+		// one sender per spawn site (a closure started twice is two senders)
+		var bodies []*eng.Func
+		for _, site := range p.GoSites() {
+			if site.F.Root() != g.Root() {
 				continue
 			}
+			if site.Lit != nil {
+				bodies = append(bodies, site.Lit)
+			} else if site.Target != nil {
+				bodies = append(bodies, site.Target)
+			}
+		}
+		for _, l := range bodies {
 			var sl []eng.Loc
 			for _, s := range l.SendsOn(resp) {
 				sl = append(sl, l.CFG().LocOf(s.Send))
